@@ -36,7 +36,9 @@ def run(c):
         "msgp.Skip nesting beyond 400 levels and protowire groups beyond 10050 levels are not exercised by the correspondence",
     ]
     binary = gen(c)
-    c.prove("SH.Props.C13", extra_files=["SH/Model/Wire.lean", "SH/Lemmas/Wire.lean", "SH/Gen/C13.lean"])
+    c.prove("SH.Props.C13", extra_files=["SH/Model/Wire.lean", "SH/Lemmas/Wire.lean", "SH/Lemmas/WireMP.lean", "SH/Lemmas/WirePB.lean",
+                                           "SH/Lemmas/WirePB2.lean", "SH/Lemmas/WirePB3.lean", "SH/Lemmas/WirePB4.lean",
+                                           "SH/Lemmas/WireFuel.lean", "SH/Gen/C13.lean"])
     drv = c.driver(DRIVER)
     if binary and drv:
         # thorough: 6 chunks with derived seeds (the streams are tens of MB each; keep them out of memory one at a time)
@@ -61,18 +63,29 @@ def run(c):
 
 META = {
     "level": "proof",
-    "technique": ("Lean 4 theorems over an executable model of parser.parse and the TL / MessagePack / Protobuf decoders "
-                  "(round trips by induction over batches, detection, termination without fuel exhaustion, allocation bound) + "
-                  "packet-by-packet differential correspondence with the real decoders + direct cross-format / crash oracle in a child process"),
-    "text": ("Kernel-checked: for every well-formed batch the TL, MessagePack and Protobuf client encodings are detected as their format and "
-             "decode to the same metrics (name, tags, counter, ts, values, uniques, histogram); the first-byte classes are disjoint; the batch loops of "
-             "parse always terminate by consuming input (never by running out of fuel) and every MessagePack allocation is bounded by the packet "
-             "length (false on the pinned tree: 14-byte witness). The model (decoders AND the canonical encoders used in the theorems) is tied to "
-             "/repo by decoding every generated packet with the real parser.parse and the compiled model and diffing format, error class, "
-             "HandleParseError flag and every delivered metric field, and by comparing the model encoders with the real encoders byte for byte."),
-    "note": ("Partial: JSON is outside the Lean model (oracle only; known finding json-tag-key-not-unescaped in generated code). "
-             "Genuine defects on the pinned tree: msgpack allocates from untrusted 32-bit lengths (fatal OOM from 14 bytes), protobuf drops unpacked "
-             "`unique` and swallows packed-varint errors — fixes in fixes/C13-*.diff; model = fixed behaviour, old behaviour kept as Variant.orig with decide witnesses. "
-             "Trusted: Lean kernel, generator reach (distribution printed), Go runtime, msgp/protowire versions in go.sum (modelled from source)."),
+    "technique": ("Lean 4 theorems over an executable model of parser.parse, the TL / MessagePack / Protobuf decoders, the canonical client "
+                  "encoders and the TCP frame splitter (round trips by induction over batches, detection, termination, allocation bound, "
+                  "chunking independence) + packet-by-packet differential correspondence with the real decoders and encoders + direct "
+                  "cross-format / stale-state / crash / hang oracle (child process, real TCP receiver over loopback)"),
+    "text": ("Kernel-checked for ALL well-formed batches and both code variants: tl_roundtrip, msgpack_roundtrip, pb_roundtrip (with the varint "
+             "round trip and the unpacked value/unique layouts) and hence all_formats_agree: parser.parse detects the TL, MessagePack and "
+             "Protobuf encodings of a batch as their formats, reports no error and delivers the same name/tags/counter/ts/values/uniques/"
+             "histogram in order. Detection from the first bytes (both directions). Safety: all model functions are total; every MessagePack "
+             "allocation is bounded by the packet length (false on the pinned tree: 14-byte witness); no TL or MessagePack reader ever exhausts "
+             "its fuel and their batch loops terminate by consuming input (parse_terminates_non_pb); TCP framing: deframe . frame = id and any "
+             "chunking of any stream delivers the same frames with a buffer >= 4+MaxTCPFrameBody (constant regenerated from /repo). The model "
+             "(decoders AND the encoders used in the theorems) is tied to /repo by decoding every generated packet with the real parser.parse and "
+             "the compiled model and diffing format, error class, HandleParseError flag and every delivered metric field, by comparing the model "
+             "encoders with the real encoders byte for byte, and by replaying TCP streams through the real receiver."),
+    "note": ("Partial: (a) JSON is outside the Lean model (oracle only; known finding json-tag-key-not-unescaped in generated code); "
+             "(b) parse_terminates for packets handed to the Protobuf decoder is not proved (fuel sufficiency of pbBatch/pbMetric/pbEntry/pbCentroid/"
+             "pbPackedVar/pbSkip*); checked by the correspondence (Go can never print ret=fuel) and implied on encoder outputs by pb_roundtrip; "
+             "(c) allocation bounds for TL and Protobuf are not theorems: the model tracks `make` sizes only for MessagePack. By reading: TL readers "
+             "call CheckLengthSanity(4*l <= remaining) before make, protobuf.go only grows slices by append per decoded element and copies "
+             "ConsumeBytes payloads (<= remaining) - the crash/amplification oracle with 2^16..2^32-1 length bombs at every TL/pb site finds nothing; "
+             "(d) pb_roundtrip assumes each metric's encoding is < 2^32 bytes. "
+             "Genuine defects found on the pinned tree and fixed in /repo: msgpack allocation from untrusted lengths, protobuf unpacked unique / swallowed "
+             "packed error (model = fixed behaviour, old behaviour kept as Variant.orig with decide witnesses). "
+             "Trusted: Lean kernel, generator reach (distribution printed), Go runtime and kernel sockets, msgp/protowire versions in go.sum (modelled from source)."),
     "design_ref": "DESIGN.md §6 C13",
 }
